@@ -92,7 +92,7 @@ def generate(seed, tier):
     srng = S("sched")
     ops = []
     nrej = 0
-    for _ in range(srng.randint(1, 8)):
+    for _ in range(srng.randint(1, 8) if tier != "thorough" else srng.randint(1, 14)):
         a = gen_assign(srng, params, states=names)
         ops.append(a)
         nrej += 1 if a.get("reject") else 0
